@@ -37,6 +37,18 @@ def gen_case(rnd, length):
         if k < 0.8:
             return [-1] * rank if rank > 1 else [-2]
         return [-1 if i == 0 else -2 for i in range(rank)] if rank > 1 else [0]
+    sim = list(cells)            # the target's cells as the history changes them (only TSetCell writes them)
+
+    def sim_vec(ix):
+        """the vector a link with this index specification selects, None when the specification selects none"""
+        if len(ix) != len(shape) or ix.count(-1) != 1 or any(x < -1 for x in ix):
+            return None
+        if len(shape) == 1:
+            return list(sim)
+        r, c = shape
+        if ix[0] == -1:
+            return [sim[j * c + ix[1]] for j in range(r)] if 0 <= ix[1] < c else None
+        return sim[ix[0] * c:(ix[0] + 1) * c] if 0 <= ix[0] < r else None
     for _ in range(length):
         k = rnd.random()
         if k < 0.14:
@@ -45,7 +57,12 @@ def gen_case(rnd, length):
                 l[rnd.randrange(1, len(l))] = l[0] - 1        # descending somewhere
             ops.append(["RSetTicks", l])
         elif k < 0.30:
-            ops.append(["RLink", idx(rnd.random() < 0.7)])
+            ix = idx(rnd.random() < 0.7)
+            ops.append(["RLink", ix])
+            # explicit ticks EQUAL to the vector the link now shows ("freezing" the ticks): they replace the link all the same
+            v = sim_vec(ix)
+            if v is not None and all(a <= b for a, b in zip(v, v[1:])) and rnd.random() < 0.5:
+                ops.append(["RSetTicks", list(v)])
         elif k < 0.36:
             ops.append(["RUnlink"])
         elif k < 0.46:
@@ -75,6 +92,7 @@ def gen_case(rnd, length):
             ops.append(["TSetLabel", rnd.choice(["t1", "t2"])])
         elif k < 0.95:
             ops.append(["TSetCell", rnd.randrange(n), rnd.randint(-9, 9)])
+            sim[ops[-1][1]] = ops[-1][2]
         else:
             ops.append(["Reopen"])
     return {"init": init, "ops": ops}
